@@ -1748,6 +1748,8 @@ int tls_decrypt_recv(TLS_CONNECT *conn)
 	if (tls_record_decrypt(hmac_ctx, dec_key, seq_num,
 		record, recordlen,
 		conn->databuf, &conn->datalen) != 1) {
+		// nothing of a rejected record may be handed out by a later tls_recv
+		conn->datalen = 0;
 		error_print();
 		return -1;
 	}
@@ -1785,6 +1787,7 @@ int tls_recv(TLS_CONNECT *conn, uint8_t *out, size_t outlen, size_t *recvlen)
 		case TLS_record_application_data:
 			break;
 		case TLS_record_change_cipher_spec:
+			conn->datalen = 0; // not application data
 			error_print();
 			return -1;
 		case TLS_record_alert:
@@ -1793,6 +1796,7 @@ int tls_recv(TLS_CONNECT *conn, uint8_t *out, size_t outlen, size_t *recvlen)
 			int level;
 			int alert;
 			tls_record_get_alert(conn->databuf, &level, &alert);
+			conn->datalen = 0; // not application data
 			if (alert == TLS_alert_close_notify) {
 				tls_trace("recv Alert.close_notify\n");
 				return 0;
@@ -1801,6 +1805,7 @@ int tls_recv(TLS_CONNECT *conn, uint8_t *out, size_t outlen, size_t *recvlen)
 			return -1;
 			}
 		default:
+			conn->datalen = 0; // not application data
 			error_print();
 			return -1;
 		}
